@@ -237,6 +237,7 @@ func checkC01(c *Ctx) {
 	scannersBounded(c, c.P.LibFns, "R-bounded-scanner")
 	c03QueueAnswered(c)
 	c15IDPresence(c)        // a request whose id is taken for absent is never answered
+	dispatchUngated(c, "R-dispatch-ungated")
 	c17NoTransportReplay(c) // a request net/http may replay on its own reaches the handler twice
 	c01WriterSurvives(c)
 	// a response whose body is never closed pins its connection: with a bounded pool later calls get no answer at all
